@@ -438,6 +438,8 @@ def run(ctx):
     bad, kinds = [], {}
     for g, (kind, pool) in enumerate(groups):
         if not pool:
+            if ctx.violations:
+                continue
             raise MachineryError("no accepted trace to corrupt for negative control %r" % kind)
         for j, i in enumerate(crng.integers(0, len(pool), per)):
             b = corrupt(pool[int(i)], kind, crng)
